@@ -4,12 +4,16 @@
 # /verif/regress/<Cxx>/ and restores /repo. The files are then replayed first by every later run.
 fix="$1"; c="$2"; sec="${3:-}"
 cd /repo || exit 2
+# evidence files are only ever committed from runs on the unchanged tree: keep them aside
+rm -rf /verif/.s/evidence.keep && cp -a /verif/evidence /verif/.s/evidence.keep
+restore_evidence() { rm -rf /verif/evidence && mv /verif/.s/evidence.keep /verif/evidence; }
 git diff --quiet || { echo "/repo not clean"; exit 2; }
 if ! git show "$fix" | git apply -R --check 2>/dev/null; then echo "cannot reverse-apply $fix"; exit 3; fi
 git show "$fix" | git apply -R
 find /verif/replays -name "$c-*.json" -delete 2>/dev/null
 (cd /verif && VERIF_ONLY="$sec" ./check "$c" quick 2>&1 | grep -E "^$c |VIOLATION|signature" | head -8)
 git -C /repo checkout -- .
+restore_evidence
 mkdir -p /verif/regress/$c
 n=0
 for f in /verif/replays/$c-*.json; do
